@@ -160,7 +160,7 @@ def body(ctx):
                 val.add(s, w, [out], s.pc, [fs], shape=shape, infoA=infoA, label=f"{shape}/{label}")
             # effects
             newmsgs = [(nm, q) for (nm, ch) in all_queues(w) for q in queue_msgs(ch)]
-            eff = []
+            eff = [w.outbuf.abs == 0, z3.UGE(w.outbuf.len, sym('outbuf.len0', BV64))]   # data queued earlier is never dropped
             if out != 'Ok':
                 eff.append(z3.BoolVal(len(newmsgs) == 0 and len(items) == 0))
                 eff.append(z3.BoolVal(stn == 'Steady'))
@@ -173,9 +173,9 @@ def body(ctx):
                     ok_fields = (cn, mn) == ('Connection', 'Close') and z3.is_true(z3.simplify(z3.And(ms.fields[cf.index('class_id')].bv == 0, ms.fields[cf.index('method_id')].bv == 0)))
                 eff.append(z3.BoolVal(bool(ok_frame and ok_fields and len(newmsgs) == 0)))
                 eff.append(sealed_flag(prog, w))
-                exc_states.append((s, w))
+                exc_states.append((s, w, fs, shape, infoA, out))
             if eff:
-                m = ctx.decide(f"c07.effects[{shape}#{pi}]={label}", s.pc, z3.And(*eff), group='violations leave no message behind; client exception = Connection.Close(hard error) as last frame, sealed, nothing delivered')
+                m = ctx.decide(f"c07.effects[{shape}#{pi}]={label}", s.pc, z3.And(*eff), group='violations leave no message behind; client exception = Connection.Close(hard error) as last frame, sealed, nothing delivered; data queued earlier stays queued')
                 if m is not None:
                     reports.append(('effects', shape, fs.describe(m), label, s, m, infoA))
                     report_io(ctx, prog, f"wrong-effects:{label}", f"collector {shape}: effects of a frame answered with {label}", s, w, [out], s.pc, z3.And(*eff), [fs], shape=shape, infoA=infoA)
@@ -185,7 +185,7 @@ def body(ctx):
     # ---- second step after a client exception: frames are ignored
     f = prog.method('ConnectionState', 'process')
     n2 = 0
-    for (s, w) in exc_states[:ctx.q(3, 12)]:
+    for (s, w, fs1, shape1, infoA1, out1) in exc_states[:ctx.q(3, 12)]:
         before = (len(w.outbuf.items), [len(ch.queue) for _, ch in all_queues(w)])
         fs2 = FrameSym(prog, 'frame2')
         for (s2, rv2) in ex.run(s, f, [Ref(w.state), Ref(w.inner), fs2.value]):
@@ -194,7 +194,7 @@ def body(ctx):
             same = (len(w2.outbuf.items), [len(ch.queue) for _, ch in all_queues(w2)]) == before and err_name(prog, rv2) == 'Ok' and state_name(prog, w2) == 'ClientException'
             m = ctx.decide(f"c07.after-exception#{n2}", s2.pc, z3.BoolVal(same), group='after a client exception every further frame is ignored (Ok, no effect)')
             if m is not None:
-                reports.append(('after-exception', 'ClientException', fs2.describe(m), err_name(prog, rv2), s2, m, {}))
+                report_io(ctx, prog, 'after-exception', f"collector {shape1}: a frame after the client exception is not ignored ({err_name(prog, rv2)})", s2, w2, [out1, err_name(prog, rv2)], s2.pc, z3.BoolVal(same), [fs1, fs2], shape=shape1, infoA=infoA1)
     ctx.extra['second_step_paths'] = n2
     ctx.twin('c07.twin: some frame is answered with a client exception', [], z3.BoolVal(len(exc_states) == 0))
     do_reports(ctx, prog, reports)
